@@ -15,13 +15,14 @@ from typing import Any
 from . import backends
 from .core import Ctx, InternalError, Part, main_wrapper, pmap
 from .explore import Chooser, explore
-from .linz import Scenario, SimfsScenario, SqlScenario
+from .linz import RedisScenario, Scenario, SimfsScenario, SqlScenario
 from .sharness import S
 
 PID = "C03"
 
 SQL_CONFIGS = ["rdb-procs", "cached-procs", "rdb-shared"]
 SIMFS_CONFIGS = ["jfile-procs-sym", "jfile-procs-open"]
+REDIS_CONFIGS = ["jredis-procs", "jredis-cluster-procs"]
 
 THREAD_CONFIGS = {
     "mem": ["optuna.storages._in_memory"],
@@ -113,6 +114,21 @@ def scenarios(tier: str) -> list[tuple]:
             for p in [(("create_trial", "user_attr"), ("create_trial", "finish")), (("create_waiting", "claim"), ("claim", "get_waiting")),
                       (("claim",), ("claim",), ("claim",))]:
                 out.append((cfg, p, 1))
+    # Part D: processes with their own JournalStorage over one (fake) Redis server; every Redis
+    # command is a scheduling point; cluster mode appends are INCR then SET (not atomic)
+    for cfg in REDIS_CONFIGS:
+        names = ["create_trial", "claim", "finish", "user_attr", "create_study", "get_all_trials"]
+        if tier == "thorough":
+            names = QUICK_NAMES
+        for i, a in enumerate(names):
+            for b in names[i:]:
+                if a.startswith("get_") and b.startswith("get_"):
+                    continue
+                out.append((cfg, ((a,), (b,)), 2))
+        for p in [(("create_trial", "get_all_trials"), ("user_attr", "get_all_trials")),
+                  (("create_study", "create_trial"), ("create_study", "get_all_trials")),
+                  (("create_trial",), ("user_attr",), ("get_all_trials", "get_all_trials"))]:
+            out.append((cfg, p, 2))
     # Part C: processes with their own JournalStorage over one simulated journal file
     for cfg in SIMFS_CONFIGS:
         names = ["create_trial", "create_waiting", "claim", "finish", "user_attr", "set_param", "create_study", "delete_study",
@@ -148,7 +164,13 @@ def scenario_task(task: tuple) -> dict:
     backends.setup_determinism()
     part = Part()
     cache = False
-    if cfg in SIMFS_CONFIGS:
+    if cfg in REDIS_CONFIGS:
+        from . import thx as _thx
+
+        _thx.set_instrumented([])
+        sc = RedisScenario(cfg, "std", build_programs(names))
+        engine = "procx-redis"
+    elif cfg in SIMFS_CONFIGS:
         from . import thx as _thx
 
         _thx.set_instrumented([])
@@ -190,6 +212,11 @@ def scenario_task(task: tuple) -> dict:
             return
         if ex["errors"]:
             raise InternalError(f"driver error {ex['errors']} in {cfg} {names}")
+        if ex.get("diverged"):
+            # a worker that has read the whole log must equal a fresh replay of it (C06 meets C03)
+            part.violation(f"{engine}|{cfg}|worker-state-differs-from-fresh-replay|{'+'.join('/'.join(p) for p in sorted(names))}",
+                           dict(rep, diverged_workers=ex["diverged"]))
+            return
         if not new:
             return
         ok, w = sc.linearizable(ex)
@@ -218,8 +245,10 @@ def replay_case(raw: dict, part: Part) -> None:
     backends.setup_determinism()
     backends.sqlite_template()
     cfg, names = raw["config"], raw["programs"]
-    if cfg in SIMFS_CONFIGS:
-        sc: Any = SimfsScenario(cfg, "std", build_programs(names))
+    if cfg in REDIS_CONFIGS:
+        sc: Any = RedisScenario(cfg, "std", build_programs(names))
+    elif cfg in SIMFS_CONFIGS:
+        sc = SimfsScenario(cfg, "std", build_programs(names))
     elif cfg in SQL_CONFIGS:
         from . import thx as _thx
 
